@@ -32,6 +32,8 @@ RECURSIVE ShapeCode(_, _)
 ShapeCode(sh, i) == IF i = 0 THEN NAxes(sh) ELSE (ShapeCode(sh, i - 1) * 11 + 2 * sh.n[i] + (IF sh.per[i] THEN 1 ELSE 0)) % 30011
 CaseCode(sh, var, conv) == (ShapeCode(sh, NAxes(sh)) * 4 + (IF var = "base" THEN 0 ELSE 1) + (IF conv = "top" THEN 0 ELSE 2)) % 65536
 
+ShardOf(code) == ((code \div 4) + (code % 4)) % NShards
+
 (* linear congruential generator modulo 2^16 (no 32 bit overflow): the j-th sample of a case *)
 Lcg(x) == (x * 25173 + 13849) % 65536
 RECURSIVE LcgIter(_, _)
@@ -56,7 +58,7 @@ ValCases ==
   UNION {{[sh |-> x.sh, var |-> x.var, conv |-> x.conv, vals |-> a] : a \in Assignments(x.sh, x.var, x.conv)} :
          x \in {y \in UNION {{[sh |-> sh, var |-> v, conv |-> cv] : v \in Classes(sh), cv \in Convs(sh)} : sh \in Shapes} :
                   /\ NInputs(y.sh, y.conv) >= MinInputs /\ NInputs(y.sh, y.conv) <= MaxInputs
-                  /\ CaseCode(y.sh, y.var, y.conv) % NShards = Shard}}
+                  /\ ShardOf(CaseCode(y.sh, y.var, y.conv)) = Shard}}
 
 Init == c \in (IF Mode = "shape" THEN {x \in ShapeCases : ShapeCode(x.sh, NAxes(x.sh)) % NShards = Shard} ELSE ValCases)
 Next == UNCHANGED c
